@@ -330,6 +330,29 @@ func runC15(c *Ctx) error {
 			}
 			hist = append(hist, fmt.Sprintf("(%d%%nat,%d,%s,%s,%s)", fr.epoch, fr.seq, coqBool(fr.prio), coqBool(ok), coqEp(eb, 0, be)))
 		}
+		// after a rollover that B has followed, A's next frames of both classes still unseal at B
+		if crossed {
+			bk, _ := eb.VerifKeys()
+			_, ak := ea.VerifKeys()
+			if epochOf(aChain, bk) == epochOf(aChain, ak) {
+				for _, pr := range []bool{true, false, true} {
+					before := len(frames)
+					if err := sealAB(pr); err != nil {
+						return err
+					}
+					if len(frames) == before {
+						continue // a refused priority wrap
+					}
+					fr := frames[len(frames)-1]
+					pf, err := builder.ParseFrame(append([]byte(nil), fr.data...), nil, 0)
+					if err != nil || pf.Unseal(sba) != nil {
+						c.Violate(fmt.Sprintf("after a key rollover both ends hold the same key, but a fresh frame (prio=%v, seq=%d) of the sender does not unseal: the sequence state is out of sync", pr, fr.seq), "post-rollover-desync",
+							map[string]any{"start_offset": x, "prio": pr, "seq": fr.seq})
+						break
+					}
+				}
+			}
+		}
 		// after the exchange B keeps sending priority frames to A: still unique under B's key
 		for k := 0; k < 1+nRev; k++ {
 			if err := sealBA(); err != nil {
